@@ -82,7 +82,7 @@ constexpr custom_term comma(",", create<no_type>{});
         list(list, comma, number) >= [](int sum, skip, int x){ return sum + x; }), use_lexer<int_lexer>{}''')
 # a large literal value type (8 KiB) inside the value variant: the fixed stacks of cstring_buffer<N> then need N * 8 KiB, and must stay usable in a constant expression
 GRAMMARS['bigvalue'] = dict(alphabet=['*'], long=['*' * k for k in (0, 1, 2, 7, 50, 100, 200, 400)] + ['*' * 30 + 'x', ' ' * 100 + '**'], code=r'''
-struct Big { int v; char pad[8188]; constexpr Big() : v(0), pad{} {} constexpr Big(int x) : v(x), pad{} {} };
+struct Big { int v; char pad[8188]; constexpr Big() : v(0), pad{} {} constexpr Big(int x) : v(x), pad{} {} constexpr Big(const Big& o) : v(o.v), pad{} {} constexpr Big(Big&&) = default; constexpr Big& operator=(const Big&) = default; constexpr Big& operator=(Big&&) = default; };   // literal, trivially destructible, trivially movable, NOT trivially copyable (user-provided copy constructor)
 constexpr nterm<int> root("root"); constexpr nterm<Big> stars("stars");
 #define PARSER_ARGS root, terms('*'), nterms(root, stars), rules( \
         root(stars) >= [](const Big& b){ return b.v; }, \
